@@ -295,3 +295,36 @@ theorem calculateRegDepth_eq_spec_sched {c : Dag} {P : Paths} {L : List (NodeId 
 
 end Metrics
 end Graphiq
+
+/-! ## the rewrites `unwrap_nodes` / `remove_identity` on the scheduled operation list -/
+namespace Graphiq
+namespace Metrics
+open Dag Relation
+
+/-- `unwrap_nodes` on any circuit with a schedule: succeeds, keeps DagInv and plainness, and the result has a schedule whose
+    operation list is the unwrapped list -/
+theorem unwrapNodes_sched_gen {c : Dag} {P : Paths} {L : List (NodeId × Op)} (g : Good c P) (hpl : AllPlain c) (hS : Sched c P L) :
+    c.unwrapNodes.2 = none ∧ ∃ P' L', Good c.unwrapNodes.1 P' ∧ Sched c.unwrapNodes.1 P' L' ∧ AllPlain c.unwrapNodes.1 ∧
+      L'.map (·.2) = (L.map (·.2)).flatMap Op.unwrap := by
+  have hLpl := hS.wf_plain g hpl
+  obtain ⟨P1, L1, g1, hS1, hL1⟩ := unwrapNodes_sched g hS hpl
+  refine ⟨(unwrapNodes_count g hpl (fun _ => true)).1, P1, L1, g1, hS1, ?_, hL1⟩
+  intro i o hm
+  have h1 : wiredOp P1 (.op i) o ∈ L1.map (·.2) := List.mem_map.mpr ⟨_, hS1.mem_of_node hm, rfl⟩
+  rw [hL1] at h1
+  exact plainOp'_of_wiredOp (plain_flatMap_unwrap (fun o ho => (hLpl o ho).2) _ h1)
+
+/-- `remove_identity` on any circuit with a schedule: the result's schedule holds the non-identity operations, in order -/
+theorem removeIdentity_sched_gen {c : Dag} {P : Paths} {L : List (NodeId × Op)} (g : Good c P) (hpl : AllPlain c) (hS : Sched c P L) :
+    c.removeIdentity.2 = none ∧ ∃ P' L', Good c.removeIdentity.1 P' ∧ Sched c.removeIdentity.1 P' L' ∧ AllPlain c.removeIdentity.1 ∧
+      L'.map (·.2) = (L.map (·.2)).filter (fun o => !decide (o.kind = .identity)) := by
+  have hLpl := hS.wf_plain g hpl
+  obtain ⟨P2, L2, g2, hS2, hL2⟩ := removeIdentity_sched g hS hpl
+  refine ⟨(removeIdentity_count g hpl (fun _ => true)).1, P2, L2, g2, hS2, ?_, hL2⟩
+  intro i o hm
+  have h1 : wiredOp P2 (.op i) o ∈ L2.map (·.2) := List.mem_map.mpr ⟨_, hS2.mem_of_node hm, rfl⟩
+  rw [hL2] at h1
+  exact plainOp'_of_wiredOp (hLpl _ (List.mem_filter.mp h1).1).2
+
+end Metrics
+end Graphiq
